@@ -10,7 +10,7 @@ var paths = []string{"/a", "/a/b", "/d", "/a/d"}
 
 func Main() {
 	mc.Main("C20", "model_checking",
-		"explicit-state search (breadth first, replay from the empty store) over all histories of create/overwrite (plain and manifest chunk) / update (replace, add chunk) / append / hard link (the Dir.Link request pair) / rename / delete (recursive x deleteData) on the paths {/a,/a/b,/d,/a/d}, executed on the real FilerServer gRPC methods; after every event the deletion queue is drained and the BatchDelete calls at the volume-server stand-in are read; distinct = (operation, flags, kind of source, kind of target, outcome, store changed)",
+		"explicit-state search (breadth first, replay from the empty store) over all histories of create/overwrite (plain and manifest chunk) / update (replace, add chunk) / append / hard link (the Dir.Link request pair) / rename / delete (recursive x deleteData) on the paths {/a,/a/b,/d,/a/d}, executed on the real FilerServer gRPC methods; plus, outside the search, recursive deletes (deleteData) of directories with PaginationSize-1 / PaginationSize / PaginationSize+1 / 2x / 2x+1 one-chunk children (and a sub-directory sorting last); after every event the deletion queue is drained and the BatchDelete calls at the volume-server stand-in are read; distinct = (operation, flags, kind of source, kind of target, outcome, store changed)",
 		func(r *mc.Run) {
 			fsys.Run(r, &fsys.Config{
 				ID: "C20",
@@ -26,6 +26,7 @@ func Main() {
 				Unmerged:    2,
 				CrashBudget: 1,
 				SyncTree:    true,
+				Pagination:  true,
 				Assumptions: []string{"renames of a directory into its own subtree are not part of this alphabet (they never return; decided by C18)"},
 			})
 		})
